@@ -114,11 +114,15 @@ var errGetter = errors.New("vk: injected getter error")
 type ScriptGetter struct {
 	mu      gosync.Mutex
 	C       vk.Chain
+	Evil    vk.Chain // attacker's fork (foreign signature), for soft-failing head answers
 	NetHead uint64
-	Hold    bool
-	held    []*heldCall
-	Log     []*heldCall
-	seq     int
+	// RangeTop: highest height served by range/height requests (0 = NetHead): the network keeps
+	// producing headers even when the trusted peers' reported head lags
+	RangeTop uint64
+	Hold     bool
+	held     []*heldCall
+	Log      []*heldCall
+	seq      int
 	// Policy, when set, decides answers for calls that are not held (nil result => honest).
 	Policy func(c *heldCall) *getterResp
 }
@@ -127,7 +131,11 @@ func (g *ScriptGetter) honest(c *heldCall) getterResp {
 	switch c.Kind {
 	case "range":
 		var out []*vk.H
-		for h := c.From.Ht + 1; h < c.To && h <= g.NetHead; h++ {
+		top := g.NetHead
+		if g.RangeTop > top {
+			top = g.RangeTop
+		}
+		for h := c.From.Ht + 1; h < c.To && h <= top; h++ {
 			out = append(out, g.C[h])
 		}
 		if len(out) == 0 {
@@ -289,6 +297,13 @@ func (g *ScriptGetter) AnswerOldest(kind string, k int) bool {
 		if h := g.C.At(uint64(k)); h != nil {
 			r = getterResp{hs: []*vk.H{h}, err: &header.VerifyError{Reason: vk.ErrTooFar, SoftFailure: true}}
 		}
+	case "soft-forged": // head request with trusted head t: the attacker's header k above t, paired with the
+		// soft failure the Exchange reports for a non-adjacent header it cannot verify directly
+		if c.Trusted != nil {
+			if h := g.Evil.At(c.Trusted.Ht + uint64(k)); h != nil {
+				r = getterResp{hs: []*vk.H{h}, err: &header.VerifyError{Reason: vk.ErrTooFar, SoftFailure: true}}
+			}
+		}
 	default:
 		panic("unknown answer kind " + kind)
 	}
@@ -423,7 +438,7 @@ func NewSWorld(cfg SCfg) (*SWorld, error) {
 	if nh == 0 {
 		nh = uint64(cfg.N)
 	}
-	w.G = &ScriptGetter{C: w.C, NetHead: nh}
+	w.G = &ScriptGetter{C: w.C, Evil: w.Evil, NetHead: nh, RangeTop: uint64(cfg.N)}
 	st, err := store.NewStore[*vk.H](w.DS.Wrap(false), store.WithWriteBatchSize(cfg.Batch))
 	if err != nil {
 		return nil, err
